@@ -217,6 +217,17 @@ def run_kind(ctx, stream, kind, chunks):
     return [ctx.c15cov.unwrap(stream, r) for r in res]
 
 
+def run_kinds(ctx, plans):
+    """several streams in one parallel round: plans = [(stream, kind, chunks)]; returns one result list per plan"""
+    payloads = [{'kind': kind, 'cases': ch, 'cov': True} for _, kind, chunks in plans for ch in chunks]
+    res = common.run_impl_parallel('c15_impl.py', payloads)
+    out, k = [], 0
+    for stream, kind, chunks in plans:
+        out.append([ctx.c15cov.unwrap(stream, r) for r in res[k:k + len(chunks)]])
+        k += len(chunks)
+    return out
+
+
 def main(ctx):
     rng = ctx.rng
     ctx.c15cov = c15_cov.Merger()
@@ -615,10 +626,7 @@ def main(ctx):
     if dhist['eigh_tiny_rank_cases'] >= 6 and dhist['eigh_reduction_gt_100x_not_chi_max'] == 0:
         ctx.fail('correspondence', 'decomp: no tiny-rank case reached the catastrophic-reduction path of eigh_rho: %s' % dhist, None)
     # ---- audit streams: float spectra, TruncationError API, _eig_based_svd, a caller that accumulates the errors
-    c15_audit.truncate_float_stream(ctx, rng, run_kind, params)
-    c15_audit.err_api_stream(ctx, rng, run_kind, params)
-    c15_audit.eig_svd_stream(ctx, rng, run_kind, params)
-    c15_audit.callers_stream(ctx, rng, run_kind, params)
+    c15_audit.run_all(ctx, rng, run_kinds, params)
     # ---- root-input models svd_theta_book / eigh_rho_book on exact data (Model/TruncBookCheck.v);
     #      decompose_theta_qr_based directly and through QRBasedTEBDEngine (dense oracle)
     c15_streams.run(ctx, rng)
